@@ -51,9 +51,11 @@ def geometry_2d(rng, quick, n=None):
         from checks import c16
         if hasattr(c16, "geometry_cases"):
             gs = c16.geometry_cases(rng, quick)
+            if not quick and n is None:
+                n = 1500          # thorough: D's ~3400 geometries capped so that the three checks stay within 10-20 minutes
             if n:
                 gs = gs[:n]
-            if len(gs) >= 300:
+            if len(gs) >= 300 or n:
                 return [dict(g) for g in gs]
     except Exception:
         pass
@@ -352,10 +354,22 @@ def spec_scalar(P, arrays):
     return float((out[m] * up[m]).sum())
 
 
-def fd_grads(P, names, eps):
-    """float64 central differences of <up, spec(f)> w.r.t. the named inputs (exact for the (piecewise) linear ops on integer data
-    when eps is a power of two small enough not to change any arg-max)"""
+def impl_scalar(P, arrays):
+    """<up, F(arrays)> with F the implementation's own forward (the function whose derivative C02 is about)"""
     np = _impl().np
+    Q = dict(P)
+    Q.update(arrays)
+    out = run_impl(Q)["out"]
+    up = np.array(P["up"], dtype=np.float64)
+    m = np.isfinite(out)
+    return float((out[m] * up[m]).sum())
+
+
+def fd_grads(P, names, eps, scalar=None):
+    """float64 central differences of <up, f> w.r.t. the named inputs, f = the loop spec or (scalar=impl_scalar) the implementation's
+    forward; exact for the (piecewise) linear ops on integer data when eps is a power of two small enough not to change any arg-max"""
+    np = _impl().np
+    spec_scalar_ = scalar or spec_scalar
     res = {}
     for nm in names:
         base = np.array(P[nm], dtype=np.float64)
@@ -365,7 +379,7 @@ def fd_grads(P, names, eps):
             idx = it.multi_index
             hi = base.copy(); hi[idx] += eps
             lo = base.copy(); lo[idx] -= eps
-            gr[idx] = (spec_scalar(P, {nm: hi}) - spec_scalar(P, {nm: lo})) / (2 * eps)
+            gr[idx] = (spec_scalar_(P, {nm: hi.tolist()}) - spec_scalar_(P, {nm: lo.tolist()})) / (2 * eps)
         res[nm] = gr
     return res
 
@@ -497,7 +511,7 @@ def oracle_backward(P, grads, eps):
     configuration) disagree with the implementation."""
     names = sorted(grads)
     pnames = {"x": "y" if P["op"] == "fold" else "x", "w": "w", "b": "b"}
-    fd = fd_grads(P, [pnames[n] for n in names], eps)
+    fd = fd_grads(P, [pnames[n] for n in names], eps, impl_scalar)      # derivative of the computed function
     tg = None
     if torch_applicable(P):
         try:
